@@ -172,8 +172,9 @@ def rand_leaps(rng, n, start=None):
     out = []
     r = start if start is not None else rng.choice([0, 78796800, rng.randint(0, 2 * 10**9)])
     c = 0
+    steps = [1, 1, 1, -1] if rng.random() < 0.65 else [-1, -1, -1, 1]          # a third of the tables run mostly negative
     for i in range(n):
-        c += rng.choice([1, 1, 1, -1])
+        c += rng.choice(steps)
         out.append([r, c])
         r += rng.choice([2419199, 2419200, 2419201, 15724800, 31536001, rng.randint(2419199, 10**8)])
     return out
@@ -389,6 +390,26 @@ def gen_leap_only_zones(rng, n):
             yield {"op": "lookup", "a": {"u": W(u), "via": rng.choice(["ref", "owned"])}}
 
 
+def gen_signed_leap_run_zones(rng, n):
+    """leap tables that run negative (or positive) to the end, one transition at the last record's count -2..+2: lookups at every
+    UTC value around it (a fast path that compares on the wrong scale is off by the accumulated correction there)"""
+    for _ in range(n):
+        sign = rng.choice([-1, -1, 1])
+        k = rng.randint(1, 5)
+        r0 = rng.randint(0, 10**9)
+        lp = [[r0 + i * rng.choice([2419199, 2419200, 10**7]), sign * (i + 1)] for i in range(k)]
+        if rng.random() < 0.3:
+            lp.append([lp[-1][0] + 2419199, lp[-1][1] - sign])              # one step back at the end
+        ty = [rand_type(rng), rand_type(rng)]
+        for d in (-2, -1, 0, 1, 2):
+            T = lp[-1][0] + d
+            z = {"tr": [[T - 10**6, 0], [T, 1]], "ty": ty, "lp": lp, "rule": rng.choice([{"k": "none"}, {"k": "fixed", "t": dict(ty[1])}])}
+            yield zone_event(z)
+            c = abs(lp[-1][1]) + 2
+            for u in range(T - lp[-1][1] - c, T - lp[-1][1] + c + 1):
+                yield {"op": "lookup", "a": {"u": W(u), "via": "ref"}}
+
+
 def gen_c12(rng, nzones):
     for i in range(nzones):
         k = rng.random()
@@ -402,11 +423,13 @@ def gen_c12(rng, nzones):
         cand = set()
         for r, c in rng.sample(lp, min(len(lp), 6)):
             cand.add(r + rng.choice([-2, -1, 0, 0, 1, 2]))
+        cand.add(lp[-1][0] + rng.choice([-1, 0, 1, 1, 2]))
         times = sorted(cand)
         tr = [[t, (j + 1) % ntypes] for j, t in enumerate(times)]
         rule = rng.choice([{"k": "none"}, {"k": "fixed", "t": dict(ty[tr[-1][1]])}])
         z = {"tr": tr, "ty": ty, "lp": lp, "rule": rule}
         yield from gen_zone_session(rng, z, nprobe=60, do_find=True)
+    yield from gen_signed_leap_run_zones(rng, max(4, nzones // 20))
     # right/-style zones with a daylight-saving footer: the table is on the leap scale, the rule's instants are UTC
     for i in range(max(8, nzones // 8)):
         r = corpus_rule(i) if i % 2 == 0 else rand_rule(rng)
